@@ -812,14 +812,31 @@ S_Exit(g) ==
   /\ S' = [S EXCEPT !.pc[g] = "wf.exit"]
   /\ H' = [H EXCEPT !.exits[S.loc[g].j] = @ + 1,
                     !.viol = @ \cup (IF S.jst[S.loc[g].j] # "processing" THEN {"C16_InWF"} ELSE {})]
-\* the wrapper's bookkeeping: the outcome is sent to the job's Response, metrics ...
+\* the wrapper around the worker function.  A result is sent to the Response of the job (or of its batch) right after the function
+\* returned; then the wrapper has the outcome ("wrap.ret"); an error or panic is sent to the Response after that; then the metrics.
+\* Response.Send stores the value (label "resp.stored"), then puts it into the channel, where a Result()/Err() caller takes it at once.
+Failed(j) == Outcome[j] = "panic" \/ (Outcome[j] = "err" /\ WK # "plain")
+S_Store1(g) ==
+  /\ g \in PGs /\ S.pc[g] = "wf.exit" /\ WK = "result" /\ ~Failed(S.loc[g].j)
+  /\ S' = [S EXCEPT !.pc[g] = "resp.stored", !.loc[g].res = "result"]
+  /\ UNCHANGED H
+S_Ret(g) ==
+  /\ g \in PGs
+  /\ \/ S.pc[g] = "wf.exit" /\ ~(WK = "result" /\ ~Failed(S.loc[g].j)) /\ S' = [S EXCEPT !.pc[g] = "wrap.ret"]
+     \/ S.pc[g] = "resp.stored" /\ S.loc[g].res = "result"
+          /\ S' = [S EXCEPT !.rsent = IF BatchOf[S.loc[g].j] = 0 THEN @ \cup {S.loc[g].j} ELSE @, !.loc[g].res = "nil", !.pc[g] = "wrap.ret"]
+  /\ UNCHANGED H
+S_Store2(g) ==
+  /\ g \in PGs /\ S.pc[g] = "wrap.ret" /\ WK # "plain" /\ Failed(S.loc[g].j)
+  /\ S' = [S EXCEPT !.pc[g] = "resp.stored", !.loc[g].res = "error"]
+  /\ UNCHANGED H
 S_Fin(g) ==
-  /\ g \in PGs /\ S.pc[g] = "wf.exit"
-  /\ LET j == S.loc[g].j
-         failed == Outcome[j] = "panic" \/ (Outcome[j] = "err" /\ WK # "plain")
-         sends == BatchOf[j] = 0 /\ WK # "plain" /\ (failed \/ WK = "result")
-     IN S' = [S EXCEPT !.msucc = IF failed THEN @ ELSE @ + 1, !.mfail = IF failed THEN @ + 1 ELSE @,
-                       !.rsent = IF sends THEN @ \cup {j} ELSE @, !.pc[g] = "serve.wfdone"]
+  /\ g \in PGs
+  /\ \/ S.pc[g] = "wrap.ret" /\ ~(WK # "plain" /\ Failed(S.loc[g].j))
+     \/ S.pc[g] = "resp.stored" /\ S.loc[g].res = "error"
+  /\ LET j == S.loc[g].j IN
+       S' = [S EXCEPT !.msucc = IF Failed(j) THEN @ ELSE @ + 1, !.mfail = IF Failed(j) THEN @ + 1 ELSE @,
+                      !.rsent = IF S.pc[g] = "resp.stored" /\ BatchOf[j] = 0 THEN @ \cup {j} ELSE @, !.loc[g].res = "nil", !.pc[g] = "serve.wfdone"]
   /\ UNCHANGED H
 \* ... then changeStatus(finished)
 S_Fin2(g) ==
@@ -899,7 +916,7 @@ SubStep(p) == CT_Marked(p) \/ CT_Wgc(p) \/ CT_RespClose(p) \/ LC_Switch(p) \/ T_
               \/ I_Start(p) \/ ST_Go(p) \/ ST_Go2(p) \/ ST_Push(p) \/ ST_Fin(p) \/ ST_Notify(p)
 DispStep(d) == D_Take(d) \/ D_Woken(d) \/ D_Exit(d) \/ D_Check(d) \/ D_Check2(d) \/ D_Reserve(d) \/ D_Recheck(d) \/ D_Deq(d) \/ D_HandOver(d) \/ D_Proc(d) \/ D_Skip(d) \/ D_Node(d) \/ D_Send(d)
                \/ Rel_Eval(d) \/ Rel_Bcast(d)
-PoolStep(g) == S_Recv(g) \/ S_Enter(g) \/ S_Exit(g) \/ S_Fin(g) \/ S_Close(g) \/ S_Fin2(g) \/ CT_Marked(g) \/ CT_Wgc(g) \/ CT_RespClose(g) \/ S_Free(g) \/ S_FreePush(g) \/ S_FreeStop(g) \/ S_Dec(g) \/ S_Notify(g)
+PoolStep(g) == S_Recv(g) \/ S_Enter(g) \/ S_Exit(g) \/ S_Store1(g) \/ S_Ret(g) \/ S_Store2(g) \/ S_Fin(g) \/ S_Close(g) \/ S_Fin2(g) \/ CT_Marked(g) \/ CT_Wgc(g) \/ CT_RespClose(g) \/ S_Free(g) \/ S_FreePush(g) \/ S_FreeStop(g) \/ S_Dec(g) \/ S_Notify(g)
                \/ Rel_Eval(g) \/ Rel_Bcast(g)
 ReapStep(r) == RP_Tick(r) \/ RP_Len(r) \/ RP_Next(r) \/ RP_Stop(r) \/ RP_Cont(r)
 LisStep(x) == X_Fire(x) \/ X_Check(x) \/ SubStep(x)
